@@ -49,9 +49,9 @@ def const_table(rel, name, repo=None):
         return _TABLES[key]
     if name not in m.assigns:
         raise TableUnknown(f"{rel}: no module-level binding of {name}")
-    how = _module_level_mutation(m, name)
+    how = _mutated_dependency(m, name)
     if how:
-        raise TableUnknown(f"{rel}: {name} is {how} at module level: its initialiser is not its value")
+        raise TableUnknown(f"{rel}: {how} at module level: the initialiser of {name} is not its value")
     try:
         val = _ast.literal_eval(m.assigns[name])
     except (ValueError, SyntaxError, TypeError):
@@ -93,6 +93,26 @@ def _module_level_mutation(m, name):
     if r:
         return r
     return f"bound {binds} times" if binds != 1 else None
+
+
+def _mutated_dependency(m, name):
+    """`name`, or a module-level name its initialiser is computed from (transitively), is built up by module-level statements
+    after its binding (`acc = set(); for k in T: acc.add(...); X = frozenset(acc)`): the engine's `module_const` evaluates
+    initialisers only, so what it returns for `name` is not the value of `name` -- the reader must answer `unknown`."""
+    import ast as _ast
+    seen, todo = set(), [name]
+    while todo:
+        nm = todo.pop()
+        if nm in seen or nm not in m.assigns:
+            continue
+        seen.add(nm)
+        how = _module_level_mutation(m, nm)
+        if how:
+            return f"{nm} is {how}"
+        for n in _ast.walk(m.assigns[nm]):
+            if isinstance(n, _ast.Name) and isinstance(n.ctx, _ast.Load):
+                todo.append(n.id)
+    return None
 
 
 def _unlift(v, what):
@@ -295,6 +315,12 @@ class C07Executor(readfile.ReadFileExecutor):
                 if isinstance(v, VUnk):
                     s.assume(OVER)
         return out
+
+    def module_const(self, name):
+        # a module-level name built up after its binding is not its initialiser (the engine evaluates initialisers only): unknown
+        if _mutated_dependency(self.module, name):
+            return VUnk(f"module:{name}")
+        return super().module_const(name)
 
     def symbolic_for(self, s, st, it):
         spec = self.loop_spec(s)
@@ -818,6 +844,9 @@ def _policy(repo, tier):
         # the derived set is an implementation detail: without it there is nothing to keep consistent (is_supported_file is
         # verified against the tables directly)
         G(oid, True, "no module-level _SUPPORTED_EXTENSIONS: nothing derived to keep consistent")
+    elif _mutated_dependency(r, "_SUPPORTED_EXTENSIONS"):
+        # built up by module-level statements (loop + .add instead of comprehensions): the initialiser alone is not the value
+        G(oid, False, f"{_mutated_dependency(r, '_SUPPORTED_EXTENSIONS')} at module level: not evaluated (native replay decides)", definite=False)
     else:
         v = ex.module_const("_SUPPORTED_EXTENSIONS")
         from pyvc.values import VSetC
